@@ -182,6 +182,27 @@ Definition keep_keys (keys : list tid) (st : store) : store :=
 Definition cleanup (st : store) (p : jprog) : store :=
   keep_keys (map tid_of (l_tasks (load st p))) st.
 
+(* ------------------------------------------------------------------ locks held by others
+   execution_loop does not run a task whose lock it cannot take: held by another worker, left behind
+   by a worker that was killed, or marked failed (--keep-failed; a task whose function raises under
+   --keep-going is in the same position: no result, its dependents cannot run).  Nothing else reads
+   locks: the loader (barrier, bvalue, CompoundTask), check and cleanup take the store only -
+   [load], [check] and [cleanup] above have no lock parameter. *)
+Definition is_locked (locks : list tid) (t : tid) : bool := existsb (Pos.eqb t) locks.
+
+Definition unlocked (locks : list tid) (ts : list task) : list task :=
+  filter (fun t => negb (is_locked locks (tid_of t))) ts.
+
+Fixpoint run_phases_l (locks : list tid) (fuel : nat) (st : store) (p : jprog) : store * list (list tid) :=
+  match fuel with
+  | O => (st, [])
+  | S f =>
+      let l := load st p in
+      let '(st1, ex) := exec_all st (unlocked locks (l_tasks l)) in
+      if l_hasbarrier l then let '(st2, exs) := run_phases_l locks f st1 p in (st2, ex :: exs)
+      else (st1, [ex])
+  end.
+
 (* ------------------------------------------------------------------ sequential reference semantics
    No store: every Task is evaluated where it is defined, barrier() does nothing, bvalue(a) is the
    value of a, a compound is its builder followed by the value of what the builder returned.
